@@ -43,63 +43,50 @@ def reward(ctx: Context) -> None:
                  n.canon(parse_expr(f"{best} >= {ref}")): "false", n.canon(parse_expr(f"{ref} <= {best}")): "false"}
     rets = returns_of(f)
     ctx.floor("R1", "return in get_reward", len(rets), 1)
-
-    def on_improving_branch(node) -> bool | None:
-        deps = [(t, lab) for t, lab in g.control_closure(node) if t.kind == "test"]
-        verdict = None
-        for t, lab in deps:
-            c = n.canon(t.ast)
+    # Path-sensitive reading (sa/util.path_summaries): one summary per acyclic path - decisions, returned value and attribute stores, all
+    # expressed over the parameters and the attribute values at entry - so guard clauses, early returns, temporaries and flags read the same.
+    from ..util import path_summaries
+    seen_zero = seen_formula = False
+    n_paths = 0
+    for ps in path_summaries(f, g):
+        if ps.ends != "return":
+            continue
+        n_paths += 1
+        verdict: bool | None = None
+        foreign = None
+        for t, lab in ps.decisions:
+            c = n.canon(t)
             if c in improving:
-                verdict = (lab == improving[c])
+                verdict = (lab == improving[c]) if verdict is None else verdict and (lab == improving[c])
             elif "Is" in c and "None" in c:
                 continue  # the guard against an unset reference
             else:
-                return None
-        return verdict if verdict is not None else False
-
-    for r in rets:
-        rn = g.nodes_of(r)[0]
-        if isinstance(r.value, ast.Name):
-            evs = reaching_events(g, r.value.id, rn)
+                foreign = t
+        ref_stores = [(v, st) for a, v, st in ps.stores if a == "_curr_best_loss"]
+        other_stores = [(a, st) for a, v, st in ps.stores if a != "_curr_best_loss"]
+        where = rets[0]
+        if foreign is not None or verdict is None:
+            ctx.fail("R1.reward", "MABCalibrationEnv.get_reward:branch", f"on the path [{ps.text()}] the reward `{src(ps.ret)[:60]}` is decided by "
+                     f"`{src(foreign)[:60] if foreign is not None else 'no comparison of the new best loss with the reference'}` rather than by `best < reference` alone", f, where, [ps.text()])
+            continue
+        val = n.rat(ps.ret)
+        if verdict:
+            seen_formula = True
+            ctx.check(val.equals(want), "R1.reward", "MABCalibrationEnv.get_reward:improving", "on improvement reward = (reference - best) / reference, computed from the reference held at entry",
+                      f"on improvement reward is `{val}`, expected `{want}`" + (" (the reference is overwritten before the reward is computed)" if "__v" in str(val) else ""), f, where, [ps.text()])
+            ctx.check(len(ref_stores) == 1 and src(ref_stores[0][0]) == best, "R1.reference", "MABCalibrationEnv.get_reward:reference-value", "on improvement the reference becomes the new best loss (one store)",
+                      f"on improvement the reference is stored {len(ref_stores)} time(s): {[src(v)[:40] for v, _ in ref_stores]}", f, ref_stores[0][1] if ref_stores else where, [ps.text()])
         else:
-            evs = [(rn, "assign", ast.Assign(targets=[], value=r.value))]
-        seen_zero = seen_formula = False
-        for node, kind, a in evs:
-            if kind != "assign":
-                ctx.fail("R1.reward", f"MABCalibrationEnv.get_reward:reward-def:{kind}", f"reward is modified by `{src(a)[:60]}`", f, a)
-                continue
-            v = a.value  # type: ignore[union-attr]
-            br = on_improving_branch(node) if node is not rn else on_improving_branch(rn)
-            val = n.rat(v)
-            if br is None:
-                ctx.fail("R1.reward", "MABCalibrationEnv.get_reward:branch", f"reward `{src(v)}` is assigned under a condition other than `best < reference`", f, a)
-            elif br:
-                seen_formula = True
-                ctx.check(val.equals(want), "R1.reward", "MABCalibrationEnv.get_reward:improving", "on improvement reward = (reference - best) / reference",
-                          f"on improvement reward is `{val}`, expected `{want}`", f, a)
-            else:
-                seen_zero = True
-                c = val.const()
-                ctx.check(c is not None and c == 0, "R1.reward", "MABCalibrationEnv.get_reward:not-improving", "without improvement reward = 0",
-                          f"without improvement reward is `{val}`", f, a)
-        ctx.check(seen_zero and seen_formula, "R1.reward", "MABCalibrationEnv.get_reward:both-branches", "both the improving and the non-improving value exist",
-                  "one of the two reward branches is missing", f, r)
-    # reference moves only on improvement, to `best`, after the reward was computed
-    stores = [s for s in walk_scope(f.node) if isinstance(s, (ast.Assign, ast.AugAssign)) and any(is_self_attr(t, f.self_name, "_curr_best_loss") for t in (s.targets if isinstance(s, ast.Assign) else [s.target]))]
-    ctx.check(len(stores) == 1, "R1.reference", "MABCalibrationEnv.get_reward:reference-stores", "the reference is stored once in get_reward", f"{len(stores)} stores to the reference", f, f.node)
-    for s in stores:
-        sn = g.nodes_of(s)[0]
-        ctx.check(on_improving_branch(sn) is True, "R1.reference", "MABCalibrationEnv.get_reward:reference-on-improvement", "the reference moves only when the loss improved",
-                  "the reference best loss is updated also without improvement", f, s)
-        ctx.check(isinstance(s, ast.Assign) and src(s.value) == best, "R1.reference", "MABCalibrationEnv.get_reward:reference-value", "the reference becomes the new best loss",
-                  f"the reference is set by `{src(s)}`", f, s)
-        # order: the improving reward is computed from the OLD reference
-        for a in walk_scope(f.node):
-            if isinstance(a, ast.Assign) and a is not s and ref in src(a.value) and isinstance(a.targets[0], ast.Name):
-                for an in g.nodes_of(a):
-                    p = g.path_avoiding(sn, {an}, set())
-                    ctx.check(p is None, "R1.reference", "MABCalibrationEnv.get_reward:reward-before-reference-update", "the reward uses the previous reference",
-                              "the reference is overwritten before the reward is computed (reward would always be 0)", f, a, path_text(f, p))
+            seen_zero = True
+            c = val.const()
+            ctx.check(c is not None and c == 0, "R1.reward", "MABCalibrationEnv.get_reward:not-improving", "without improvement reward = 0", f"without improvement reward is `{val}`", f, where, [ps.text()])
+            ctx.check(not ref_stores, "R1.reference", "MABCalibrationEnv.get_reward:reference-on-improvement", "the reference moves only when the loss improved",
+                      f"the reference best loss is updated also without improvement (`{src(ref_stores[0][1])[:60] if ref_stores else ''}`)", f, ref_stores[0][1] if ref_stores else where, [ps.text()])
+        for a, st in other_stores:
+            ctx.fail("R1.reference", f"MABCalibrationEnv.get_reward:extra-store:{a}", f"get_reward also stores self.{a} (`{src(st)[:60]}`): state beyond the reference best loss", f, st)
+    ctx.notes["get_reward_paths"] = n_paths
+    ctx.check(seen_zero and seen_formula, "R1.reward", "MABCalibrationEnv.get_reward:both-branches", "both the improving and the non-improving value exist",
+              "one of the two reward branches is missing", f, rets[0])
     # no other writer of the reference except the scheduler's bootstrap store (C10 covers it) and __init__
     base = ctx.func("black_it.schedulers.rl.envs.base:CalibrationEnv.__init__")
     init_st = [s for s in walk_scope(base.node) if isinstance(s, (ast.Assign, ast.AnnAssign)) and is_self_attr(s.targets[0] if isinstance(s, ast.Assign) else s.target, base.self_name, "_curr_best_loss")]
